@@ -20,6 +20,9 @@ import (
 // plain and extended child store, link collection, ref-counted link collection, and a
 // cascade-delete referrer store. Used by C06, C07, C08, C09, C15.
 
+// kOrgKey: the key under which the fk symbol `org` of people is stored (deliberately not the symbol name)
+const kOrgKey = "orgRef"
+
 type kFeat struct {
 	orgs, places, rc, pets bool
 	maxCount               int
@@ -93,9 +96,9 @@ func (m *kModel) Render() *dump.Tree {
 		b := t.Ensure("root", "people", id)
 		b.Values["name"] = world.EncString(p.name)
 		if p.org == nil {
-			b.Values["org"] = world.EncNil()
+			b.Values[kOrgKey] = world.EncNil()
 		} else {
-			b.Values["org"] = world.EncString(*p.org)
+			b.Values[kOrgKey] = world.EncString(*p.org)
 			t.Ensure("root", "orgs", *p.org, "members").Values[world.TypedKey(id)] = []byte{}
 		}
 		for _, r := range p.roles {
@@ -241,7 +244,7 @@ func newKitchen(label string, feat kFeat) *kitchen {
 	k.orgs = world.NewStore(&world.Spec{EntityType: "orgs", BasePath: []string{"root"}, Fields: lbl})
 	k.places = world.NewStore(&world.Spec{EntityType: "places", BasePath: []string{"root"}, Fields: lbl})
 	k.people = world.NewStore(&world.Spec{EntityType: "people", BasePath: []string{"root"}, Fields: []world.Field{
-		{Name: "name", Kind: world.KString}, {Name: "roles", Kind: world.KStringList}, {Name: "org", Kind: world.KStringP}}})
+		{Name: "name", Kind: world.KString}, {Name: "roles", Kind: world.KStringList}, {Name: kOrgKey, Kind: world.KStringP}}})
 	k.pets = world.NewStore(&world.Spec{EntityType: "pets", BasePath: []string{"root"}, Fields: []world.Field{
 		{Name: "label", Kind: world.KString}, {Name: "owner", Kind: world.KStringP}}})
 	k.orgs.AddScalarSymbols()
@@ -252,7 +255,7 @@ func newKitchen(label string, feat kFeat) *kitchen {
 	k.nameIdx = k.people.AddUniqueIndex(nameSym)
 	rolesSym := k.people.AddSetSymbol("roles", ast.NodeTypeString)
 	k.rolesIdx = k.people.AddSetIndex(rolesSym)
-	orgSym := k.people.AddFkSymbol("org", k.orgs)
+	orgSym := k.people.AddFkSymbolWithKey("org", kOrgKey, k.orgs) // the symbol name differs from the stored key
 	membersSym := k.orgs.AddFkSetSymbol("members", k.people)
 	k.people.AddNullableFkIndex(orgSym, membersSym)
 
@@ -273,7 +276,7 @@ func newKitchen(label string, feat kFeat) *kitchen {
 
 	mkMgr := func() {
 		k.mgr = world.NewStore(&world.Spec{Parent: k.people, ChildPath: []string{"mgr"}, Fields: []world.Field{
-			{Name: "name", Kind: world.KString}, {Name: "roles", Kind: world.KStringList}, {Name: "org", Kind: world.KStringP},
+			{Name: "name", Kind: world.KString}, {Name: "roles", Kind: world.KStringList}, {Name: kOrgKey, Kind: world.KStringP},
 			{Name: "lead", Kind: world.KBoolP, Child: true}}})
 		if feat.childIdx {
 			k.mgr.Spec.Fields = append(k.mgr.Spec.Fields, world.Field{Name: "title", Kind: world.KString, Child: true})
@@ -286,7 +289,7 @@ func newKitchen(label string, feat kFeat) *kitchen {
 	}
 	mkProf := func() {
 		k.prof = world.NewStore(&world.Spec{Parent: k.people, ChildPath: []string{"prof"}, Extended: true, Fields: []world.Field{
-			{Name: "name", Kind: world.KString}, {Name: "roles", Kind: world.KStringList}, {Name: "org", Kind: world.KStringP},
+			{Name: "name", Kind: world.KString}, {Name: "roles", Kind: world.KStringList}, {Name: kOrgKey, Kind: world.KStringP},
 			{Name: "nick", Kind: world.KStringP, Child: true}}})
 		if feat.childIdx {
 			k.prof.Spec.Fields = append(k.prof.Spec.Fields, world.Field{Name: "badges", Kind: world.KStringList, Child: true})
@@ -357,9 +360,9 @@ func (k *kitchen) storeFor(via string) *world.Store {
 func (k *kitchen) personRec(id, name string, roles []string, org *string, lead *bool, nick *string) *world.Rec {
 	r := world.NewRec("people", id).With("name", name).With("roles", append([]string{}, roles...))
 	if org == nil {
-		r.With("org", nil)
+		r.With(kOrgKey, nil)
 	} else {
-		r.With("org", *org)
+		r.With(kOrgKey, *org)
 	}
 	if lead == nil {
 		r.With("lead", nil)
@@ -1004,8 +1007,8 @@ func (k *kitchen) Invariant(tx *bbolt.Tx, mm explore.Model) error {
 
 func (k *kitchen) cmpPerson(via string, e *world.Rec, p *kPerson, wantLead, wantNick bool) error {
 	org := "null"
-	if e.F["org"] != nil {
-		org = e.F["org"].(string)
+	if e.F[kOrgKey] != nil {
+		org = e.F[kOrgKey].(string)
 	}
 	roles, _ := e.F["roles"].([]string)
 	if e.F["name"] != p.name || org != orgS(p.org) || strings.Join(roles, ",") != strings.Join(p.roles, ",") {
